@@ -1138,6 +1138,7 @@ type impl32 struct {
 	Out    map[string]eng32 `json:"out"`
 	Bound  map[string]eng32 `json:"bound,omitempty"` // cluster stream: engine params held by bound workloads
 	Extra  []string         `json:"extra,omitempty"` // ids answered only by the second plugin
+	Tried  []string         `json:"tried,omitempty"` // gone workloads for which a failed engine update was recorded
 }
 
 type case32 struct {
@@ -1149,6 +1150,7 @@ type case32 struct {
 	WS    map[string]wres `json:"ws"`
 	Multi bool            `json:"multi,omitempty"`   // Manager.Remap over two plugins (cpumem + scripted)
 	Cluster string        `json:"cluster,omitempty"` // cluster-level stream: the calcium operation that preceded
+	Gone  []string        `json:"gone,omitempty"`    // cluster stream: workloads whose container vanished (their engine update fails)
 	Impl  *impl32         `json:"impl"`
 }
 
@@ -1285,6 +1287,10 @@ func TestGen(t *testing.T) {
 			case "C32":
 				c := &case32{}
 				must(json.Unmarshal(line, c))
+				if c.Cluster != "" { // a cluster-level case: re-run the whole (seeded) cluster stream
+					runCluster32(t, hx.NewRng(seed^0xC32), out, nextID, 2+n/60)
+					continue
+				}
 				c.ID = nextID() + "r"
 				f.runC32(c)
 				out.Emit(c)
@@ -1357,7 +1363,8 @@ func TestGen(t *testing.T) {
 			f.runC32(c)
 			out.Emit(c)
 		}
-		runCluster32(t, r, out, nextID, 1+n/60) // cluster-level stream (real Calcium, fake engine)
+		// cluster-level stream (real Calcium, fake engine); its own generator so that a replay can re-run it
+		runCluster32(t, hx.NewRng(seed^0xC32), out, nextID, 2+n/60)
 	default:
 		t.Fatalf("unknown VERIF_PROPERTY %q", prop)
 	}
